@@ -200,6 +200,7 @@ def main():
         else:
             rep.inconclusive.append('%s: complementary run of a known finding was inconclusive: %s' % (r.job.name, r.reason))
     core.triage(rep, results, info, replayer=make_replayer(info))
+    rep.validate_translation(info)
     return rep.finish('proof', 'goto-cc | goto-instrument --dfcc harness --enforce-contract <T>_write --replace-call-with-contract AbstractFile_v_write --replace-call-with-contract AbstractFile_skipp | cbmc ' + ' '.join(core.CBMC_FLAGS),
                       core.TRUSTED_BASE)
 
